@@ -142,7 +142,8 @@ def coq_audit(prop, theorems, module=None):
             s = ln.strip()
             if not s or s.startswith("Closed under") or s.startswith("Axioms:"):
                 continue
-            m = re.match(r"([\w.']+)\s*:", s)
+            # an axiom entry starts at column 0 with its name; its type may continue on indented lines
+            m = re.match(r"([A-Za-z_][\w.']*)\s*(:|$)", ln)
             if m:
                 res[cur].append(m.group(1))
     bad = {t: [a for a in ax if a not in AXIOM_ALLOW and a.split(".")[-1] not in AXIOM_ALLOW]
